@@ -147,6 +147,22 @@ def shard(args):
         what = v['sig'].split('/')[-1]
         acc.violation('C09/%s/%s/%s/per-read/%s/W' % (front, framing, what, 'single' if v['witness']['hosted'] is None else 'multi'),
                       dict(v['witness'], fault=True), v['msg'], '%s/%s' % (front, framing))
+    # units added to / removed from the context while the connection is open (same scenarios as C10): a request for
+    # a unit hosted at the time it arrives gets exactly one reply
+    tmp = Acc()
+    for bc in ((False, True) if framing != 'tls' else ()):
+        if bc and front.startswith('tw'):
+            continue
+        for ign in (False, True):
+            for steps in c10.RECONF:
+                c10.run_reconf(tmp, front, framing, bc, ign, steps)
+                acc.inc('evaluations')
+                acc.inc('transitions', len(steps))
+    for v in tmp.violations:
+        what = v['sig'].split('/')[-1]
+        if what == 'wrong-store':
+            continue
+        acc.violation('C09/%s/%s/%s/per-read/reconfigured/%s' % (front, framing, what, 'multi'), v['witness'], v['msg'], '%s/%s' % (front, framing))
     acc.inc('states', len(nodes))
     acc.add('nontrivial', (front, framing))
     acc.sample(dict(front=front, framing=framing, example_sequence=['R', 'W', 'UA'],
@@ -174,6 +190,9 @@ def run(tier, seed):
 
 
 def replay(w):
+    if w.get('reconf'):
+        from checks import c10
+        return c10.replay(w)
     acc = Acc()
     if w.get('fault'):
         from checks import c10
